@@ -4,7 +4,12 @@ use crate::rng::Rng;
 pub fn gen_case(profile: &str, rng: &mut Rng, out: &mut String) -> bool {
     match profile {
         "C01" => super::c01::gen_case(rng, out, false),
+        "C05" => super::c05::gen_case(rng, out),
+        "C06" => super::c06::gen_case(rng, out),
         "C07" => super::c01::gen_case(rng, out, true),
+        "C13" => super::c13::gen_case(rng, out),
+        "C14" => super::c14::gen_case(rng, out),
+        "C18" => super::c18::gen_case(rng, out),
         _ => return false,
     }
     true
